@@ -41,6 +41,9 @@ func checkC04(c *Ctx) {
 		c.cmpTotal("CMP", []*FuncInfo{fi}, "branches of different trees on the same taxa compare equal exactly when they define the same split")
 	}
 	c.Floor("CMP", 1)
+	c.Decides("HASH-AFTER-CLEAR: every caller of ClearBitSets (which zeroes the branch hash codes too) recomputes the hashes afterwards")
+	c.hashAfterClear("HASH-AFTER-CLEAR")
+	c.Floor("HASH-AFTER-CLEAR", 2)
 	c.Floor("LOSTWRITE", 1)
 	c.Floor("NET", 1)
 	c.Floor("PRESENT", 3)
